@@ -39,3 +39,19 @@ Fixpoint wf (maxl : Z) (ls : list (bytes * eol)) : bool :=
 
 (* the field rules applied to the logical lines only *)
 Definition sse_of_lines (s : sse) (lines : list bytes) : sse := fold_left sse_line lines s.
+
+(* [wft maxl ls tail]: as [wf], for a stream that continues with [tail] after the lines *)
+Definition not_lf_first (b : bytes) : bool :=
+  match b with [] => false | x :: _ => negb (x =? 10) end.
+
+Fixpoint wft (maxl : Z) (ls : list (bytes * eol)) (tail : bytes) : bool :=
+  match ls with
+  | [] => true
+  | (l, k) :: t =>
+      clean l && (len l <=? maxl) &&
+      match k, t with
+      | Ecr, [] => not_lf_first tail
+      | Ecr, ([], Elf) :: _ => false
+      | _, _ => true
+      end && wft maxl t tail
+  end.
